@@ -2,6 +2,7 @@ import ShroudVerif.Lemmas.DeclRound
 import ShroudVerif.Lemmas.DeclMeaning
 import ShroudVerif.Lemmas.ArgMeaning
 import ShroudVerif.Lemmas.RewriteRound
+import ShroudVerif.Lemmas.NameLookup
 import ShroudVerif.Gen.DeclTables
 /-!
 # C09  Declarations are understood as a C++ compiler understands them
@@ -447,5 +448,71 @@ example :
           (some [n, .mk vecInt (some (.leaf [⟨.star, false, false⟩] (some (sp "out")))) none false [] [] none])
           false [] [] none) := by rfl
 
+
+/-! ### Name lookup through nested scopes (`Model/NameLookup.lean`)
+
+The declaration model takes its symbol environment as given; these theorems are about how
+that environment is built from the scope the declaration is parsed in (`unqualified_lookup`
+of library / namespace / class / block nodes), innermost scope first. -/
+
+/-- **A name declared in an inner scope hides the same name further out**: whatever the
+    enclosing scopes and the using-directives contain, a scope that has its own symbol table
+    (library, namespace, class, template parameter list) resolves a name it declares to its
+    own declaration. -/
+theorem inner_hides_outer (kind : ScopeKind) (hk : kind ≠ .delegate) (syms : List (Str × Sym)) (usings : List Chain)
+    (outer : Chain) (name : Str) (s : Sym) (h : assoc name syms = some s) :
+    (Chain.cons kind syms usings outer).lookup name = some s := by
+  cases kind with
+  | delegate => exact absurd rfl hk
+  | cls => simp [Chain.lookup, h]
+  | nspace => simp [Chain.lookup, h]
+  | library => simp [Chain.lookup, h]
+
+/-- a class passes a name it does not declare to the enclosing scope (member types hide
+    namespace members hide global names, and nothing else intervenes) -/
+theorem class_falls_through (syms : List (Str × Sym)) (usings : List Chain) (outer : Chain) (name : Str)
+    (h : assoc name syms = none) :
+    (Chain.cons .cls syms usings outer).lookup name = outer.lookup name := by
+  simp [Chain.lookup, h]
+
+/-- a block / function scope adds nothing -/
+theorem delegate_is_transparent (syms : List (Str × Sym)) (usings : List Chain) (outer : Chain) (name : Str) :
+    (Chain.cons .delegate syms usings outer).lookup name = outer.lookup name := by
+  simp [Chain.lookup]
+
+/-- a namespace asks the namespaces of its using-directives (in order) before the enclosing
+    scope, and only for names it does not declare itself -/
+theorem namespace_using_before_outer (syms : List (Str × Sym)) (usings : List Chain) (outer : Chain) (name : Str)
+    (h : assoc name syms = none) :
+    (Chain.cons .nspace syms usings outer).lookup name
+      = (match lookupUsing name usings with | some s => some s | none => outer.lookup name) := by
+  simp only [Chain.lookup, h]
+  cases lookupUsing name usings <;> rfl
+
+/-- **The environment handed to the declaration parser is the scope chain**: `Env.unq` of the
+    flattened chain is the chain lookup, for every name. -/
+theorem toEnv_unq (c : Chain) (types : List TypeInfo) (canon : List (Str × Str)) (name : Str) :
+    (c.toEnv types canon).unq name = c.lookup name := by
+  simp only [Env.unq, Chain.toEnv, lookup_eq_visible]
+  cases assoc name c.visible <;> simp
+
+/-- hiding, as the declaration parser sees it: inside a class that declares `name`, the
+    environment resolves `name` to the member whatever the enclosing scopes declare -/
+theorem member_type_hides_in_env (syms : List (Str × Sym)) (usings : List Chain) (outer : Chain)
+    (types : List TypeInfo) (canon : List (Str × Str)) (name : Str) (s : Sym) (h : assoc name syms = some s) :
+    ((Chain.cons .cls syms usings outer).toEnv types canon).unq name = some s := by
+  rw [toEnv_unq]
+  exact inner_hides_outer .cls (by decide) syms usings outer name s h
+
+/-- global `enum Color`, `namespace a { class Color; class Pen { enum Color; } }`: inside `Pen`,
+    `Color` is `a::Pen::Color`; inside `a` it is `a::Color`; at library level `Color` -/
+example :
+    let lib := Chain.cons .library [(sp "Color", .type (sp "Color")), (sp "a", .ns [])] [] .nil
+    let a := Chain.cons .nspace [(sp "Color", .type (sp "a::Color")), (sp "Pen", .type (sp "a::Pen"))] [] lib
+    let pen := Chain.cons .cls [(sp "Color", .type (sp "a::Pen::Color"))] [] a
+    (match pen.lookup (sp "Color") with | some (.type t) => some t | _ => none) = some (sp "a::Pen::Color") ∧
+    (match a.lookup (sp "Color") with | some (.type t) => some t | _ => none) = some (sp "a::Color") ∧
+    (match pen.lookup (sp "Pen") with | some (.type t) => some t | _ => none) = some (sp "a::Pen") := by
+  refine ⟨by rfl, by rfl, by rfl⟩
 
 end Shroud.Decl
